@@ -95,6 +95,14 @@ func fileCases(r *mon.Run) []fileCase {
 			add(w, "size-3", n*3, "rand", "unbounded-width")
 		}
 	}
+	// lengths at which a varint in the metadata grows by a byte (file sizes, block sizes, Tsize)
+	for _, n := range []int{127, 128, 129, 16383, 16384, 16385} {
+		add(3, "size-4096", n, "rand", "varint-edge")
+		add(2, "size-128", n, "rand", "varint-edge")
+	}
+	for _, n := range []int{2097151, 2097152, 2097153} {
+		add(2, "size-262144", n, "rand", "varint-edge")
+	}
 	// other chunk sizes
 	for _, ks := range []int{1, 3, 7, 16, 256} {
 		for _, n := range []int{1, 2, 5, 10} {
